@@ -1,8 +1,8 @@
 /-
   Driver handlers for the Cli model.
 
-    clean <hex path>                         → hex of filepath.Clean
-    abs <hex cwd> <hex path>                 → hex of filepath.Abs with that working directory
+    clean <hex path>                         → `path <hex of filepath.Clean>`
+    abs <hex cwd> <hex path>                 → `path <hex of filepath.Abs with that working directory>`
     cli <flags> <out> <recs> <recfiles> <ids> <pos> <world> <oracle> <sum>
     keygen <flags> <out> <pos> <world> <koracle> <sum>
 
@@ -181,10 +181,10 @@ def keygen (args : List String) : String :=
 
 def handle (op : String) (args : List String) : Option String :=
   match op, args with
-  | "clean", [p] => some ((unhex p).elim "bad-args" fun p => hexOrDash (clean p))
+  | "clean", [p] => some ((unhex p).elim "bad-args" fun p => "path " ++ hexOrDash (clean p))
   | "abs", [cwd, p] =>
     some (match unhex cwd, unhex p with
-      | some cwd, some p => hexOrDash (render (absPath (toPath cwd) p))
+      | some cwd, some p => "path " ++ hexOrDash (render (absPath (toPath cwd) p))
       | _, _ => "bad-args")
   | "cli", _ => some (cli args)
   | "keygen", _ => some (keygen args)
